@@ -26,11 +26,12 @@ ASSUMPTIONS = [
     'cohorts without any example are outside the statement ("same clients" with data) and are not generated',
 ]
 SHARDS = {'quick': 8, 'thorough': 16}
+ENV = {'XLA_FLAGS': '--xla_force_host_platform_device_count=8'}
 SHARD_TIMEOUT = {'quick': 900, 'thorough': 3400}
 MIN_HITS = {
-    'quick': {'deg:zero-step-client-with-weight': 4, 'mon:fedprox0': 60, 'mon:hyp1': 60, 'mon:apfl': 60, 'mon:mimelite': 20, 'mon:proxoracle': 40,
+    'quick': {'deg:zero-step-client-with-weight': 4, 'fedprox0-on-pmap': 8, 'mon:fedprox0': 60, 'mon:hyp1': 60, 'mon:apfl': 60, 'mon:mimelite': 20, 'mon:proxoracle': 40,
               'mon:proxaug': 40, 'mon:mime': 40, 'leg:apfl-rounds': 60},
-    'thorough': {'deg:zero-step-client-with-weight': 60, 'mon:fedprox0': 1200, 'mon:hyp1': 1200, 'mon:apfl': 1200, 'mon:mimelite': 400, 'mon:proxoracle': 800,
+    'thorough': {'deg:zero-step-client-with-weight': 60, 'fedprox0-on-pmap': 120, 'mon:fedprox0': 1200, 'mon:hyp1': 1200, 'mon:apfl': 1200, 'mon:mimelite': 400, 'mon:proxoracle': 800,
                  'mon:proxaug': 800, 'mon:mime': 700, 'leg:apfl-rounds': 1200},
 }
 EXHAUSTIVE = {'quick': False, 'thorough': False}
@@ -187,8 +188,20 @@ def run_deg(ctx, fedjax, jax, jnp, h):
   wit = witness(h)
   common = dict(cspec=h['cspec'], sspec=h['sspec'], hp=h['hp'])
   ref = Leg(ctx, 'fed_avg', algos.build('fed_avg', **common), init, wit)
+  # FedProx(0) must equal FedAvg whatever backend its for_each_client was built on: in a third of the histories the
+  # FedProx leg runs on the pmap backend (uniform batch shapes: shuffle_repeat_batch), FedAvg stays on the default backend
+  nd = 1 + (h['init_seed'] % 8)
+  on_pmap = h['init_seed'] % 3 == 0 and len(jax.local_devices()) >= nd
+  if on_pmap:
+    from fedjax.core import for_each_client as fec
+    with fedjax.for_each_client_backend(fec.ForEachClientPmapBackend(jax.local_devices()[:nd])):
+      prox_built = algos.build('fed_prox', proximal_weight=0.0, **common)
+    ctx.count('fedprox0-on-pmap')
+    wit = {**wit, 'fedprox_backend': f'pmap[{nd}]'}
+  else:
+    prox_built = algos.build('fed_prox', proximal_weight=0.0, **common)
   legs = {
-      'fedprox0': Leg(ctx, 'fed_prox', algos.build('fed_prox', proximal_weight=0.0, **common), init, wit),
+      'fedprox0': Leg(ctx, 'fed_prox', prox_built, init, wit),
       'hyp1': Leg(ctx, 'hyp_cluster', algos.build('hyp_cluster', num_clusters=1, **common), init, wit),
       'apfl': Leg(ctx, 'apfl', algos.build('apfl', client_coefficient=h['client_coefficient'], **common), init, wit),
   }
